@@ -19,6 +19,7 @@ from fractions import Fraction
 from common import frac_str, close
 
 MAX_EVALS_GUARD = 45          # a run that evaluates more often than this is cut (never reached by the generators)
+ES_V123_EVAL_POINTS = True      # see gen_cfg (fix-2 applied: the recorded count is the one the stopping rule reads)
 MAX_POINTS_GUARD = 4000      # ... and so is a run that evaluates far more points than any generated limit allows
 STRATEGIES = ("dimwise", "extend_split")
 _CLS = {}
@@ -88,11 +89,11 @@ def _classes():
             def evaluate_operation(self):
                 r = super().evaluate_operation()
                 log = self.__dict__.setdefault("_verif_log", [])
-                f = self.operation.f
+                f = self.__dict__.get("_verif_f") or self.operation.f      # the harness's integrand (operation.f may be a wrapper)
                 objs = all_objects(self)
                 log.append({"kind": "eval",
                             "result": [float(x) for x in np.atleast_1d(self.operation.get_result())],
-                            "seen": len(f.seen), "fdict": f.get_f_dict_size(),
+                            "seen": len(f.seen), "fdict": self.operation.f.get_f_dict_size(),
                             "objs": [(None if getattr(o, "error", None) is None else float(np.max(o.error)),
                                       None if getattr(o, "benefit", None) is None else float(np.max(o.benefit)),
                                       None if getattr(o, "evaluations", None) is None else float(o.evaluations))
@@ -108,8 +109,9 @@ def _classes():
 
             def __call__(self, interpolation_points):
                 r = super().__call__(interpolation_points)
+                fobs = self.__dict__.get("_verif_f") or self.operation.f
                 self.__dict__.setdefault("_verif_log", []).append(
-                    {"kind": "call", "values": np.asarray(r, dtype=float).tolist()})
+                    {"kind": "call", "values": np.asarray(r, dtype=float).tolist(), "seen": len(getattr(fobs, "seen", {}))})
                 return r
 
         Observed.__name__ = Observed.__qualname__ = name
@@ -170,6 +172,16 @@ def reference_of(cfg, f):
     import numpy as np
     dim = cfg["dim"]
     exact = f.exact(*box_of(cfg))
+    if cfg.get("operation") == "uq":
+        # UncertaintyQuantification with Uniform distributions on the box: the combined result is the expectation = integral / volume
+        lo, hi = box_of(cfg)
+        vol = Fraction(1)
+        for d in range(dim):
+            vol *= Fraction(hi[d]) - Fraction(lo[d])
+        exact = [x / vol for x in exact]
+        if cfg.get("uq_moments"):
+            # (f, f^2) integrand: the reference is an INPUT of the run; any fixed non-zero vector will do for the error formula
+            exact = [exact[0], exact[0] * exact[0] * Fraction(5, 4) + Fraction(1, 8)]
     mode = cfg["ref"]
     if mode == "none":
         return None
@@ -210,7 +222,7 @@ def build(cfg, f=None, op=None):
     a, b = (np.array(x, dtype=float) for x in box_of(cfg))
     ctor = dict(cfg.get("ctor") or {})          # further constructor options of the strategy (d. option forwarding)
     if op is not None:
-        f = op.f
+        f = getattr(op, "f_model", None) or op.f      # (UQ keeps the model function; op.f may be the (f, f^2) wrapper)
     if f is None:
         f = make_f(cfg)
         if cfg.get("cache", True) is False:
@@ -228,7 +240,25 @@ def build(cfg, f=None, op=None):
                 grid = GlobalLagrangeGrid(a, b, boundary=True, modified_basis=False, p=int(cfg.get("p", 2)))
             else:
                 grid = GlobalTrapezoidalGrid(a, b, boundary=True, modified_basis=False)
-            op = Integration(f, grid=grid, dim=dim, reference_solution=ref)
+            if cfg.get("operation") == "uq":
+                # the other operation class that accepts a reference solution: UncertaintyQuantification (Uniform distributions on
+                # the box, weighted global trapezoidal grid); the reference reaches it through the CONSTRUCTOR or through
+                # set_reference_solution(); optionally the vector-valued (f, f^2) moment integrand
+                from sparseSpACE.GridOperation import UncertaintyQuantification
+                from sparseSpACE.Grid import GlobalTrapezoidalGridWeighted
+                if cfg.get("ref_route") == "setter":
+                    op = UncertaintyQuantification(f, "Uniform", a, b)
+                    op.set_reference_solution(ref)
+                else:
+                    op = UncertaintyQuantification(f, "Uniform", a, b, reference_solution=ref)
+                op.set_grid(GlobalTrapezoidalGridWeighted(a, b, op, boundary=True))
+                if cfg.get("uq_moments"):
+                    op.set_expectation_variance_Function()
+                    if cfg.get("cache", True) is False:
+                        op.f.deactivate_caching()
+                ctor = dict(ctor, grid_surplusses=op.get_grid())
+            else:
+                op = Integration(f, grid=grid, dim=dim, reference_solution=ref)
         eo = ErrorCalculatorSingleDimVolumeGuided()
         sa = C["dimwise"](a, b, version=cfg.get("version", 6), operation=op, norm=norm, print_level=100, log_level=100, **ctor)
     else:
@@ -253,6 +283,7 @@ def build(cfg, f=None, op=None):
         sa.refinements_for_recalculate = int(cfg["recalc"])
     # the caller's own argument objects (c. argument aliasing: the implementation must not modify them)
     sa.__dict__["_verif_args"] = {"a": a, "b": b, "ref": ref}
+    sa.__dict__["_verif_f"] = f
     return sa, eo, f
 
 
@@ -492,9 +523,10 @@ def object_clauses(viol, cfg, out, ret, prefix=""):
         q.append((int(sa.get_total_num_points()), [float(x) for x in np.atleast_1d(sa.operation.get_result())],
                   int(sa.operation.get_distinct_points(sa.scheme)), len(sa.get_areas())))
     after = ([float(x) for x in np.atleast_1d(ret[3])], [list(map(repr, ret[i])) for i in names], ret[4])
-    # (with reevaluate_at_end the final recomputation may evaluate further points after the last history entry -- extend-split
-    #  version 3 does --, so the count is compared with the last entry only without that option)
-    if q[0] != q[1] or q[1] != q[2] or snap != after or (len(ret[6]) and not cfg.get("reeval") and q[0][0] != int(ret[6][-1])) or \
+    # (with reevaluate_at_end the final recomputation, and with evaluation_points the interpolation diagnostics of the loop, may
+    #  evaluate further points after the last history entry -- extend-split version 3 does both --, so the count is compared with
+    #  the last entry only without these options)
+    if q[0] != q[1] or q[1] != q[2] or snap != after or (len(ret[6]) and not cfg.get("reeval") and not cfg.get("eval_points") and q[0][0] != int(ret[6][-1])) or \
             (not cfg.get("reeval") and q[0][1] != snap[0]):
         viol(prefix + "queries-disagree", {"three_reads (points, result, distinct points, areas)": q, "returned_points": int(ret[6][-1]) if len(ret[6]) else None,
                                            "returned_result": snap[0], "returned_tuple_changed_by_queries": snap != after})
@@ -514,6 +546,18 @@ def object_clauses(viol, cfg, out, ret, prefix=""):
             viol(prefix + "caller-arguments-modified", bad)
 
 
+def seen_at_report(log_part):
+    """distinct integrand evaluations at the moment each history entry is written: after the evaluation and -- with
+    evaluation_points -- after the interpolation diagnostics of the same pass of the loop"""
+    out = []
+    for e in log_part:
+        if e["kind"] == "eval":
+            out.append(e["seen"])
+        elif e["kind"] == "call" and out and "seen" in e:
+            out[-1] = e["seen"]
+    return out
+
+
 def check_run(ctx, drv, cfg, limits, scout_stream=None, tag_extra=None, prior=None, then=None):
     """run cfg with limits on the implementation, compare with the model, evaluate the oracle.
     returns (ok, observed stream or None)"""
@@ -525,7 +569,8 @@ def check_run(ctx, drv, cfg, limits, scout_stream=None, tag_extra=None, prior=No
     rclass = ref_class(reference_of(cfg, make_f(cfg)))
     tags = {"strategy": cfg["strategy"], "ref": rclass, "norm": cfg["norm"], "dim": cfg["dim"],
             "outputs": len(cfg["coeffs"]), "scale": cfg.get("scale", 1.0), "cache": cfg.get("cache", True),
-            "grid": cfg.get("grid", "default"), "recalc": cfg.get("recalc"), "evaluation_points": bool(cfg.get("eval_points")),
+            "grid": cfg.get("grid", "default"), "recalc": cfg.get("recalc"), "evaluation_points": bool(cfg.get("eval_points")), "operation": cfg.get("operation", "integration"),
+            "ref_route": cfg.get("ref_route", "constructor"),
             "reevaluate_at_end": bool(cfg.get("reeval"))}
     ctx.count("refclass_" + rclass)
     tags["history"] = prior["kind"] if prior else "fresh"
@@ -607,12 +652,12 @@ def check_run(ctx, drv, cfg, limits, scout_stream=None, tag_extra=None, prior=No
                                       "benefit_max": ev["benefit_max"]})
             break
     # reported point count = number of distinct integrand evaluations (counted by the integrand itself)
-    for i, ev in enumerate(evals[:n]):
-        if pts[i] != ev["seen"]:
-            viol("point-count", {"evaluation": i, "reported": pts[i], "distinct_evaluations": ev["seen"]})
+    for i, seen_i in enumerate(seen_at_report(log)[:n]):
+        if pts[i] != seen_i:
+            viol("point-count", {"evaluation": i, "reported": pts[i], "distinct_evaluations": seen_i})
             break
-    if n and not runaway and out["f"].get_f_dict_size() != len(out["f"].seen):
-        viol("point-count", {"final_reported": out["f"].get_f_dict_size(), "distinct_evaluations": len(out["f"].seen)})
+    if n and not runaway and out["sa"].operation.f.get_f_dict_size() != len(out["f"].seen):
+        viol("point-count", {"final_reported": out["sa"].operation.f.get_f_dict_size(), "distinct_evaluations": len(out["f"].seen)})
     # reported error = deviation of the reported result from the reference
     import numpy as np
     ref = reference_of(cfg, out["f"])
@@ -683,8 +728,7 @@ def check_run(ctx, drv, cfg, limits, scout_stream=None, tag_extra=None, prior=No
     # point cache: batches of new requests per evaluation -> sizes
     order = sorted(out["f"].seen.items(), key=lambda kv: kv[1])
     batches, lo = [], 0
-    for ev in evals[:n]:
-        hi = ev["seen"]
+    for hi in seen_at_report(log)[:n]:
         batches.append([k for k, _ in order[lo:hi]])
         lo = hi
     if sum(len(b) for b in batches) <= 700:
@@ -765,9 +809,9 @@ def second_call(ctx, drv, cfg, L1, then, out, stream1, scout_stream, viol, corr)
     if any(pts[i] > pts[i + 1] for i in range(len(pts) - 1)):
         viol("continue-points-decrease", {"points": pts})
         ok = False
-    for k, ev in enumerate(evals2[:n2]):
-        if stream2[k][1] != ev["seen"]:
-            viol("continue-point-count", {"evaluation_in_call": k, "reported": stream2[k][1], "distinct_evaluations": ev["seen"]})
+    for k, seen_k in enumerate(seen_at_report(part)[:n2]):
+        if stream2[k][1] != seen_k:
+            viol("continue-point-count", {"evaluation_in_call": k, "reported": stream2[k][1], "distinct_evaluations": seen_k})
             ok = False
             break
     ref = reference_of(cfg, f)
@@ -840,6 +884,16 @@ def gen_cfg(rng, thorough, strategy=None):
         cfg["grid"] = rng.choice(["trapezoidal", "trapezoidal", "trapezoidal", "gauss_legendre", "gauss_legendre", "clenshaw_curtis"])
     # recalculate_frequently=True with the threshold lowered to 1-3 refined objects: refine() re-evaluates everything
     cfg["recalc"] = rng.choice([None, None, None, 1, 2, 3])
+    # operation class coverage: UncertaintyQuantification (Uniform on the box) as the second operation that accepts a reference
+    # solution -- through its CONSTRUCTOR or through set_reference_solution(); scalar model or the (f, f^2) moment integrand
+    if strategy == "dimwise" and rng.random() < 0.25:
+        cfg["operation"] = "uq"
+        cfg["ref_route"] = rng.choice(["constructor", "constructor", "setter"])
+        cfg["uq_moments"] = rng.random() < 0.4
+        if cfg["uq_moments"]:
+            cfg["coeffs"], cfg["powers"] = cfg["coeffs"][:1], cfg["powers"][:1]
+        if cfg["ref"] == "partial_zero" and len(cfg["coeffs"]) == 1 and not cfg["uq_moments"]:
+            cfg["ref"] = "exact"
     # g. non-cubic boxes (dyadic ends, both signs, different widths per dimension)
     if rng.random() < 0.3:
         lo = [rng.choice([0.0, -1.0, 0.5, -2.0, 1.0]) for _ in range(dim)]
@@ -876,7 +930,11 @@ def gen_cfg(rng, thorough, strategy=None):
     # the rarely used option evaluation_points: the loop interpolates at these points after every evaluation and returns two
     # more history arrays (interpolation errors in the 2- and the max-norm)
     # (not on the Gauss-Legendre grid: it has no boundary points and the d-linear interpolation of the code does not extrapolate)
-    if rng.random() < 0.25 and cfg.get("grid") != "gauss_legendre":
+    # (and not with extend-split versions 1-3 on this tree: their interpolation evaluates NEW integrand points between the moment the
+    #  history entry is written and the moment the stopping rule reads the count -- a run stops "by max" with a reported count below the
+    #  maximum; repair proposed in handoff/postfix/C13/fix-2-*, whose staged harness generates the combination; ES_V123_EVAL_POINTS)
+    if rng.random() < 0.25 and cfg.get("grid") != "gauss_legendre" and cfg.get("operation") != "uq" and \
+            (ES_V123_EVAL_POINTS or not (strategy == "extend_split" and cfg.get("version") in (1, 2, 3))):
         lo, hi = box_of(cfg)
         cfg["eval_points"] = [[lo[d] + rng.choice([0.0, 1.0, 0.5, 0.25, 0.75, 0.3, 0.7, 0.125, 0.9]) * (hi[d] - lo[d]) for d in range(dim)]
                               for _ in range(rng.randint(2, 5))]
@@ -926,7 +984,7 @@ def gen_limits(rng, stream, k):
 
 def run(ctx):
     thorough = ctx.tier == "thorough"
-    ctx.rule = ("complete adaptive Integration runs (dimension-wise+GlobalTrapezoidalGrid versions 2/3/6, extend-split+TrapezoidalGrid; dim 2-3, "
+    ctx.rule = ("complete adaptive runs of Integration and (dimension-wise, 25 %) UncertaintyQuantification with Uniform distributions, reference via constructor or setter, scalar or (f,f^2) (dimension-wise+GlobalTrapezoidalGrid versions 2/3/6, extend-split+TrapezoidalGrid; dim 2-3, "
                 "extend-split in 2-D also on GaussLegendreGrid / ClenshawCurtisGrid; recalculate_frequently with refinements_for_recalculate 1-3 in half "
                 "of the configurations; lmin 1, lmax 2-3; dyadic polynomial integrands with 1-3 outputs, scaled by 1 / 1e-10 / 1e-12 / 2^-34 / 2^-45 / 1e8 / 2^27, value cache on or "
                 "deactivated; reference exact/perturbed/zero/partially zero/none; norms inf,1,2); "
@@ -965,6 +1023,16 @@ def run(ctx):
                 cfg = gen_cfg(ctx.rng, thorough, strategy="extend_split")
             cfg.update(grid="clenshaw_curtis", ctor={"split_single_dim": True}, lmax=2, version=0, test_scheme=False, family="ssd_cc")
             ctx.count("family_split_single_dim_clenshaw_curtis")
+        elif k < 4:
+            # always present: the UncertaintyQuantification operation with its reference handed to the CONSTRUCTOR (k = 2: scalar
+            # model, k = 3: (f, f^2) moment integrand); the error is judged against the harness's own reference
+            while not (cfg["strategy"] == "dimwise" and cfg["dim"] == 2 and cfg["ref"] in ("exact", "perturbed")):
+                cfg = gen_cfg(ctx.rng, thorough, strategy="dimwise")
+            cfg.update(operation="uq", ref_route="constructor", uq_moments=(k == 3), lmax=2)
+            cfg.pop("eval_points", None)
+            if k == 3:
+                cfg["coeffs"], cfg["powers"] = cfg["coeffs"][:1], cfg["powers"][:1]
+            ctx.count("family_uq_reference_in_constructor")
         cap = ctx.rng.choice([60, 90, 130, 180] if cfg["dim"] == 2 else [120, 200, 300])
         if cfg.get("family") == "ssd_cc":
             cap = 1           # the first evaluation only; the assertion-prone refinements of this option x grid are not entered
@@ -975,11 +1043,12 @@ def run(ctx):
         ctx.count("strategy_" + cfg["strategy"]); ctx.count("ref_" + cfg["ref"]); ctx.count("norm_" + cfg["norm"])
         ctx.count("dim_%d" % cfg["dim"]); ctx.count("outputs_%d" % len(cfg["coeffs"]))
         ctx.count("grid_" + cfg.get("grid", "trapezoidal" if cfg["strategy"] == "extend_split" else "global_trapezoidal")); ctx.count("recalc_%s" % cfg.get("recalc"))
+        ctx.count("operation_" + cfg.get("operation", "integration") + ("_moments" if cfg.get("uq_moments") else "") + ("_" + cfg["ref_route"] if cfg.get("operation") == "uq" else ""))
         ctx.count("evaluation_points_%s" % bool(cfg.get("eval_points"))); ctx.count("reevaluate_at_end_%s" % bool(cfg.get("reeval")))
         ctx.count("scale_" + ("1" if cfg["scale"] == 1.0 else ("tiny" if cfg["scale"] < 1 else "huge"))); ctx.count("cache_%s" % cfg["cache"])
         ctx.case({"cfg": cfg, "limits": scout_limits}, nontrivial=bool(stream and len(stream) > 1),
                  sample={"cfg": cfg, "limits": scout_limits, "points": [x[1] for x in (stream or [])]} if k < 2 else None)
-        if (len(ctx.violations) + len(ctx.corr_breaks)) >= ctx.max_reports:
+        if len(ctx.violations) >= ctx.max_reports:      # (m) only FAILING INPUTS end the search early; disagreements with the model do not
             break
         if not stream:
             continue
@@ -1008,6 +1077,12 @@ def run(ctx):
                     prior["strategy"] = "dimwise" if cfg["strategy"] == "extend_split" else "extend_split"
                     # (the other strategy needs far more evaluations for the point counts of a Gauss-Legendre stream)
                     prior["limits"]["max"] = min(prior["limits"]["max"], 300)
+            if cfg.get("operation") == "uq" and prior is not None and prior["kind"] != "unrelated_sibling":
+                # no reuse of UncertaintyQuantification objects: the (f, f^2) integrand is a wrapper around the model function whose own
+                # value cache survives a second run (the harness's per-run count of MODEL evaluations is then not the integrand's), and
+                # a second strategy object on the same weighted grid reports other surplus estimates than a fresh one (same error and
+                # points; surplus estimates are not a C13 clause)
+                prior = None
             ctx.count("history_" + (prior["kind"] if prior else "fresh"))
             # (a dimension-wise strategy OBJECT that runs twice does not repeat the run of a fresh object -- its level caches
             #  survive performSpatiallyAdaptiv --, so the scout stream predicts nothing there; the property's clauses and the
@@ -1036,7 +1111,7 @@ def run(ctx):
             n2 = len(s2) if s2 else 0
             ctx.count("stopped_first" if n2 == 1 else "stopped_later")
             ctx.case({"cfg": cfg, "limits": L, "prior": prior, "then": then}, nontrivial=n2 >= 1)
-        if (len(ctx.violations) + len(ctx.corr_breaks)) >= ctx.max_reports:
+        if len(ctx.violations) >= ctx.max_reports:      # (m) only FAILING INPUTS end the search early; disagreements with the model do not
             break
 
 
